@@ -15,8 +15,14 @@ RULE = (
     "sample() call; distinct = its (kind,b,t,n,seed,n_chains,chain) tuple; non-trivial = t>1 or b>0 or n_chains>1"
 )
 ASSUMPTIONS = ["non-overlap of streams is decided on the first 4096 64-bit outputs of each stream (no shared value, no shared window)"]
-REQUIRED = {"cli_schedules_checked": {"quick": 24, "thorough": 300}, "cli_schedules_with_zero_burnin": {"quick": 12, "thorough": 150}, "captures_at_log_level_DEBUG": {"quick": 30, "thorough": 150}, "schedules_checked": {"quick": 500, "thorough": 2000}, "stream_pairs_checked": {"quick": 200, "thorough": 2000}, "vi_checked": {"quick": 40, "thorough": 250}}
+REQUIRED = {"recorded_samples_rechecked": {"quick": 150, "thorough": 900}, "cli_schedules_checked": {"quick": 24, "thorough": 300}, "cli_schedules_with_zero_burnin": {"quick": 12, "thorough": 150}, "captures_at_log_level_DEBUG": {"quick": 30, "thorough": 150}, "schedules_checked": {"quick": 500, "thorough": 2000}, "stream_pairs_checked": {"quick": 200, "thorough": 2000}, "vi_checked": {"quick": 40, "thorough": 250}}
 GRID = {"quick": (12, 5, 8), "thorough": (24, 7, 12)}
+
+
+def theta_bytes(th):
+    """every parameter of a posterior sample, by value"""
+    d = th.private_parameters_dict()
+    return sorted((k, kit.raw_bytes(np.asarray(v))) for k, v in d.items())
 
 
 def run_shard(rec, tier, seed, shard, nshards):
@@ -156,10 +162,14 @@ def run_shard(rec, tier, seed, shard, nshards):
             log.append(("step", cnt["steps"]))
             return o_step()
 
+        snaps = []
+
         def state():
             log.append(("state", cnt["steps"]))
             tags.append(cnt["steps"])
-            return o_state()
+            th_ = o_state()
+            snaps.append(theta_bytes(th_))  # what the recorded sample holds at the moment it is recorded
+            return th_
 
         def reset():
             log.append(("reset", cnt["steps"]))
@@ -180,6 +190,11 @@ def run_shard(rec, tier, seed, shard, nshards):
             continue
         rec.count("real_model_schedules")
         check_schedule("SparseDrugCombo", log, tags, b, t, n, res, w)
+        # "records the state after steps b+t, b+2t, ...": a recorded sample is a snapshot; the steps taken after it
+        # was recorded must not reach into it
+        later = [i for i in range(min(len(snaps), len(res.thetas))) if theta_bytes(res.thetas[i]) != snaps[i]]
+        rec.count("recorded_samples_rechecked", len(snaps))
+        rec.check(not later, "C17/schedule/recorded-sample-changed-later", lambda: "recorded sample(s) %r no longer hold the values they had when they were recorded (b=%d,t=%d,n=%d): later steps of the sampler changed them" % (later, b, t, n), w)
 
     # ---------- (b') the same through the train_model command line: the numbers given there are the schedule
     import os
